@@ -12,6 +12,7 @@ CONSTANTS
   KF_DefaultsNotHashed = FALSE
   KF_AdoptCached = FALSE
   KF_AliasBlind = TRUE
+  KF_OneRulePerKey = FALSE
 INIT Init
 NEXT Next
 INVARIANT Coherent
